@@ -69,12 +69,16 @@ MSub(x, y) ==
         bs == IF s < 0 THEN 1 ELSE 0
     IN <<x[1] - y[1] - bs, s + bs * SPD, n + bn * NS, a + ba * NS>>
 
+\* TLC passes operator arguments unevaluated and re-evaluates LET definitions at every use; in the recursive
+\* operators below the intermediate results are therefore bound to values through a one-element set
+\* (x \in {e} evaluates e once).
+The(S) == CHOOSE r \in S : TRUE
+
 \* k * x by double-and-add (every step is an MAdd, hence 32-bit safe)
 RECURSIVE MTimes(_, _)
 MTimes(x, k) == IF k = 0 THEN ZeroM
-                ELSE LET h == MTimes(x, k \div 2)
-                         dbl == MAdd(h, h)
-                     IN IF k % 2 = 1 THEN MAdd(dbl, x) ELSE dbl
+                ELSE The({ The({ IF k % 2 = 1 THEN MAdd(MAdd(h, h), xv) ELSE MAdd(h, h) : h \in {MTimes(xv, k \div 2)} })
+                           : xv \in {x} })
 
 \* x / 2; exact iff the attosecond limb is even (the remainders moving down are multiples of 10^9 / 2)
 MHalfExact(x) == x[4] % 2 = 0
@@ -84,9 +88,9 @@ MHalf(x) ==
         a == x[4] + (n % 2) * NS
     IN <<x[1] \div 2, s \div 2, n \div 2, a \div 2>>
 RECURSIVE MHalves(_, _)
-MHalves(x, h) == IF h = 0 THEN x ELSE MHalves(MHalf(x), h - 1)
+MHalves(x, h) == IF h = 0 THEN x ELSE The({ MHalves(MHalf(xv), h - 1) : xv \in {x} })
 RECURSIVE MHalvesExact(_, _)
-MHalvesExact(x, h) == h = 0 \/ (MHalfExact(x) /\ MHalvesExact(MHalf(x), h - 1))
+MHalvesExact(x, h) == h = 0 \/ The({ MHalfExact(xv) /\ MHalvesExact(MHalf(xv), h - 1) : xv \in {x} })
 
 ---------------------------------------------------------------------------
 (* durations *)
